@@ -108,7 +108,7 @@ class CellBasis(AbstractBasis):
     @property
     def _base_tensor_order(self):
 
-        loc_pts = np.zeros((self.elem.dim, 1))[:, :, np.newaxis]
+        loc_pts = np.zeros((self.elem.refdom.dim(), 1))[:, :, np.newaxis]
         base_obj = self.elem.gbasis(
             self.mapping,
             loc_pts,
